@@ -824,6 +824,24 @@ func (c *Ctx) rulePair(rule string) {
 						}
 					}
 				}
+				// removal of a pending entry: only by its own waiter, after the result has arrived
+				if ci, ok := in.(ssa.CallInstruction); ok {
+					if bi, ok := ci.Common().Value.(*ssa.Builtin); ok && bi.Name() == "delete" && c.isFieldLoad(ci.Common().Args[0], ro.clientT, ro.pending) {
+						k := key(rule, c.M.Key(fn), "pending entry removed only after its result arrived")
+						has := false
+						for _, cond := range core.CondsAt(b) {
+							if x, neq, ok := core.NilCmp(cond.V); ok && neq == cond.True && strings.HasSuffix(c.M.ValPath(x), "."+resultField) {
+								has = true
+							}
+						}
+						if has {
+							c.R.Ok(rule, k, c.M.InstrPos(in), "removal from the pending table", "dominated by `result != nil` of the entry: the waiter removes its own, completed entry")
+						} else {
+							c.R.Bad(rule, k, c.M.InstrPos(in), "pending entry removed although its result may not have arrived",
+								"the result for this run ID will find no entry and be dropped; the Execute call that registered it waits forever")
+						}
+					}
+				}
 				// waits
 				if call, ok := in.(*ssa.Call); ok && core.StaticCalleeName(&call.Call) == "(*sync.Cond).Wait" {
 					k := key(rule, c.M.Key(fn), "wait preceded by a test of the condition")
@@ -845,5 +863,1024 @@ func (c *Ctx) rulePair(rule string) {
 			}
 		}
 	}
-	c.R.Floor(rule, 2)
+	c.R.Floor(rule, 3)
+}
+
+// ---------- R-CHAN ----------
+
+// reachSync: functions reachable from root through calls, defers and closures that are invoked synchronously
+// (a closure started with `go` belongs to another goroutine).
+func (c *Ctx) reachSync(root *ssa.Function) map[*ssa.Function]bool {
+	seen := map[*ssa.Function]bool{root: true}
+	work := []*ssa.Function{root}
+	for len(work) > 0 {
+		f := work[len(work)-1]
+		work = work[:len(work)-1]
+		for _, b := range f.Blocks {
+			for _, in := range b.Instrs {
+				ci, ok := in.(ssa.CallInstruction)
+				if !ok {
+					continue
+				}
+				if _, isGo := in.(*ssa.Go); isGo {
+					continue
+				}
+				for _, callee := range c.M.Callees(ci.Common()) {
+					if !seen[callee] {
+						seen[callee] = true
+						work = append(work, callee)
+					}
+				}
+			}
+		}
+	}
+	return seen
+}
+
+type goRoot struct {
+	name string
+	fn   *ssa.Function
+	set  map[*ssa.Function]bool
+	site *ssa.Go
+	in   *ssa.Function // spawning function
+}
+
+// goRootsOf: the goroutine roots of the package (every `go` target, plus the given entry functions as "caller's goroutine").
+func (c *Ctx) goRoots(pkgName string, entries ...*ssa.Function) []goRoot {
+	var out []goRoot
+	for _, e := range entries {
+		out = append(out, goRoot{name: "caller of " + c.M.Key(e), fn: e, set: c.reachSync(e)})
+	}
+	pkg := c.M.SSA[pkgName]
+	for _, fn := range c.M.Funcs {
+		if fn.Pkg != pkg {
+			continue
+		}
+		for _, b := range fn.Blocks {
+			for _, in := range b.Instrs {
+				if g, ok := in.(*ssa.Go); ok {
+					for _, t := range c.M.Callees(g.Common()) {
+						out = append(out, goRoot{name: "go " + c.M.Key(t), fn: t, set: c.reachSync(t), site: g, in: fn})
+					}
+				}
+			}
+		}
+	}
+	return out
+}
+
+func (c *Ctx) isFieldLoad(v ssa.Value, st *types.Named, field string) bool {
+	ld, ok := v.(*ssa.UnOp)
+	if !ok || ld.Op.String() != "*" {
+		return false
+	}
+	fa, ok := ld.X.(*ssa.FieldAddr)
+	if !ok {
+		return false
+	}
+	sn := structOf(fa.X.Type())
+	return sn != nil && sn.Obj() == st.Obj() && fieldName(fa.X.Type(), fa.Field) == field
+}
+
+func (c *Ctx) ruleChan(rule string) {
+	ro := c.roles()
+	if !ro.ok {
+		return
+	}
+	entry := c.fn(rule, "atp.RunATPServer")
+	if entry == nil {
+		return
+	}
+	roots := c.goRoots("atp", entry)
+	rootsOf := func(fn *ssa.Function) []goRoot {
+		var out []goRoot
+		for _, r := range roots {
+			if r.set[fn] {
+				out = append(out, r)
+			}
+		}
+		return out
+	}
+	type sendSite struct {
+		fn *ssa.Function
+		in ssa.Instruction
+		nb bool // non-blocking (select with default)
+	}
+	var sends []sendSite
+	var closes []ssa.Instruction
+	var recvLoops []*ssa.Select
+	for _, fn := range c.M.Funcs {
+		for _, b := range fn.Blocks {
+			for _, in := range b.Instrs {
+				switch x := in.(type) {
+				case *ssa.Send:
+					if c.isFieldLoad(x.Chan, ro.serverT, ro.errChan) {
+						sends = append(sends, sendSite{fn, in, false})
+					}
+				case *ssa.Select:
+					for _, st := range x.States {
+						if c.isFieldLoad(st.Chan, ro.serverT, ro.errChan) {
+							if st.Dir == types.SendOnly {
+								sends = append(sends, sendSite{fn, in, !x.Blocking})
+							} else {
+								recvLoops = append(recvLoops, x)
+							}
+						}
+					}
+				case ssa.CallInstruction:
+					if bi, ok := x.Common().Value.(*ssa.Builtin); ok && bi.Name() == "close" && c.isFieldLoad(x.Common().Args[0], ro.serverT, ro.errChan) {
+						closes = append(closes, in)
+					}
+				case *ssa.UnOp:
+					if x.Op.String() == "<-" && c.isFieldLoad(x.X, ro.serverT, ro.errChan) {
+						// plain receive loop: not used today
+					}
+				}
+			}
+		}
+	}
+	chName := ro.serverT.Obj().Name() + "." + ro.errChan
+	// (c) non-blocking sends lose reports
+	for _, s := range sends {
+		if s.nb {
+			c.R.Bad(rule, key(rule, c.M.Key(s.fn), "non-blocking send on "+chName), c.M.InstrPos(s.in), "error report sent with a non-blocking send",
+				"the channel has a small fixed buffer and a single consumer: when it is full the report is dropped, so the run never gets its terminal message and the client's Execute waits forever")
+		}
+	}
+	// (a) close vs. senders in other goroutines
+	for _, cl := range closes {
+		cfn := cl.Parent()
+		croots := rootsOf(cfn)
+		seenRoot := map[string]bool{}
+		for _, s := range sends {
+			for _, sr := range rootsOf(s.fn) {
+				same := false
+				for _, cr := range croots {
+					if cr.fn == sr.fn {
+						same = true
+					}
+				}
+				if same || seenRoot[sr.name] {
+					continue
+				}
+				seenRoot[sr.name] = true
+				k := key(rule, "close("+chName+") in "+c.M.Key(cfn), "senders in "+sr.name)
+				// joined before the close?
+				joined := false
+				for _, b := range cfn.Blocks {
+					for _, in := range b.Instrs {
+						if call, ok := in.(*ssa.Call); ok {
+							if _, ok := c.wgOfCall(&call.Call, "Wait"); ok && instrDominates(call, cl) {
+								joined = true
+							}
+						}
+					}
+				}
+				if joined {
+					c.R.Ok(rule, k, c.M.InstrPos(cl), "close of the error channel", "a WaitGroup.Wait dominating the close joins the sending goroutines first")
+				} else {
+					c.R.Bad(rule, k, c.M.InstrPos(cl), "error channel closed while another goroutine may still send on it",
+						"the goroutine "+sr.name+" sends on "+chName+" (e.g. at "+c.M.InstrPos(s.in)+") and is not joined before this close: a step that fails after the read loop ended panics with `send on closed channel`")
+				}
+			}
+		}
+	}
+	// (b) the receiver loop must only stop when the channel is closed
+	for _, sel := range recvLoops {
+		fn := sel.Parent()
+		loop := map[*ssa.BasicBlock]bool{}
+		h := sel.Block()
+		// natural loop of back edges into h
+		loop[h] = true
+		var stack []*ssa.BasicBlock
+		for _, p := range h.Preds {
+			if h.Dominates(p) && !loop[p] {
+				loop[p] = true
+				stack = append(stack, p)
+			}
+		}
+		for len(stack) > 0 {
+			b := stack[len(stack)-1]
+			stack = stack[:len(stack)-1]
+			for _, p := range b.Preds {
+				if !loop[p] {
+					loop[p] = true
+					stack = append(stack, p)
+				}
+			}
+		}
+		n := 0
+		for _, b := range fn.Blocks {
+			if !h.Dominates(b) {
+				continue
+			}
+			// exits: edges from a block dominated by h to a block outside the loop, and returns in non-loop blocks dominated by h
+			for _, s := range b.Succs {
+				if (loop[b] || !loop[b] && false) && !loop[s] && h.Dominates(s) {
+					// classify the edge
+					if len(b.Instrs) == 0 {
+						continue
+					}
+					desc := "jump"
+					closedExit := false
+					if ifi, ok := b.Instrs[len(b.Instrs)-1].(*ssa.If); ok {
+						truth := b.Succs[0] == s
+						desc = c.condDesc(fn, ifi.Cond, truth)
+						if e, ok := ifi.Cond.(*ssa.Extract); ok && e.Tuple == ssa.Value(sel) && e.Index == 1 && !truth {
+							closedExit = true
+						}
+					}
+					if isPanicOnly(s) {
+						continue
+					}
+					n++
+					k := key(rule, c.M.Key(fn), "receive loop on "+chName+" left when "+desc)
+					if closedExit {
+						c.R.Ok(rule, k, c.M.InstrPos(b.Instrs[len(b.Instrs)-1]), "exit of the error-report loop", "taken only when the channel has been closed (no sender is left)")
+					} else {
+						c.R.Bad(rule, k, c.M.InstrPos(b.Instrs[len(b.Instrs)-1]), "error-report loop can stop while senders are still running",
+							"after this exit nobody receives from "+chName+" (buffer 3); goroutines counted by the session WaitGroup that report an error later block in their send forever, and RunATPServer's final Wait never returns")
+					}
+				}
+			}
+		}
+		_ = n
+	}
+	c.R.Floor(rule, 3)
+	// client side: signal channels fetched from the guarded table
+	mutex := ro.mutexOf[ro.clientT]
+	for _, fn := range c.M.Funcs {
+		if !c.methodOrClosureOf(fn, ro.clientT) {
+			continue
+		}
+		for _, b := range fn.Blocks {
+			for _, in := range b.Instrs {
+				var ch ssa.Value
+				kind := ""
+				switch x := in.(type) {
+				case *ssa.Send:
+					ch, kind = x.Chan, "send"
+				case ssa.CallInstruction:
+					if bi, ok := x.Common().Value.(*ssa.Builtin); ok && bi.Name() == "close" {
+						ch, kind = x.Common().Args[0], "close"
+					}
+				}
+				if ch == nil {
+					continue
+				}
+				// channel obtained from the signal table?
+				var lk *ssa.Lookup
+				if e, ok := ch.(*ssa.Extract); ok {
+					lk, _ = e.Tuple.(*ssa.Lookup)
+				} else if l, ok := ch.(*ssa.Lookup); ok {
+					lk = l
+				}
+				if lk == nil || !strings.HasSuffix(c.M.ValPath(lk.X), "."+ro.sigTable) {
+					continue
+				}
+				base := strings.TrimSuffix(c.M.ValPath(lk.X), "."+ro.sigTable)
+				lock := base + "." + mutex
+				held := false
+				for _, l := range c.lockedAt(fn, in) {
+					if l == lock {
+						held = true
+					}
+				}
+				k := key(rule, c.M.Key(fn), kind+" on a channel from "+ro.clientT.Obj().Name()+"."+ro.sigTable)
+				switch {
+				case !held:
+					c.R.Bad(rule, k, c.M.InstrPos(in), kind+" on a signal channel outside the client mutex", "the channel is fetched from the guarded table; without the lock the close in sendExecutionResult can interleave: send on closed channel")
+				case kind == "close":
+					// must be preceded in the same block by delete(table, key)
+					deleted := false
+					for _, in2 := range b.Instrs {
+						if in2 == in {
+							break
+						}
+						if ci, ok := in2.(ssa.CallInstruction); ok {
+							if bi, ok := ci.Common().Value.(*ssa.Builtin); ok && bi.Name() == "delete" && strings.HasSuffix(c.M.ValPath(ci.Common().Args[0]), "."+ro.sigTable) {
+								deleted = true
+							}
+						}
+					}
+					if deleted {
+						c.R.Ok(rule, k, c.M.InstrPos(in), "close of a signal channel", "under the client mutex, after removing the channel from the table every sender fetches it from: no send can follow")
+					} else {
+						c.R.Bad(rule, k, c.M.InstrPos(in), "signal channel closed while still in the table", "a later signal message finds the channel in the table and sends on the closed channel")
+					}
+				default:
+					c.R.Ok(rule, k, c.M.InstrPos(in), "send on a signal channel", "fetched from the table and sent under the client mutex, the same critical section discipline as the close")
+				}
+			}
+		}
+	}
+}
+
+func isPanicOnly(b *ssa.BasicBlock) bool {
+	if len(b.Instrs) == 0 {
+		return false
+	}
+	_, ok := b.Instrs[len(b.Instrs)-1].(*ssa.Panic)
+	return ok
+}
+
+// condDesc renders a branch condition without positions or register names.
+func (c *Ctx) condDesc(fn *ssa.Function, v ssa.Value, truth bool) string {
+	neg := ""
+	if !truth {
+		neg = "not "
+	}
+	switch x := v.(type) {
+	case *ssa.BinOp:
+		return neg + "(" + c.opnd(fn, x.X) + " " + x.Op.String() + " " + c.opnd(fn, x.Y) + ")"
+	case *ssa.Extract:
+		if sel, ok := x.Tuple.(*ssa.Select); ok {
+			_ = sel
+			return neg + "select result #" + string(rune('0'+x.Index))
+		}
+	case *ssa.UnOp:
+		return neg + c.stable(fn, c.M.ValPath(x))
+	}
+	return neg + c.stable(fn, c.M.ValPath(v))
+}
+
+func (c *Ctx) opnd(fn *ssa.Function, v ssa.Value) string {
+	if cst, ok := v.(*ssa.Const); ok {
+		if cst.Value == nil {
+			return "nil"
+		}
+		return cst.Value.ExactString()
+	}
+	if e, ok := v.(*ssa.Extract); ok {
+		if _, ok := e.Tuple.(*ssa.Select); ok {
+			return "select index"
+		}
+	}
+	return c.stable(fn, c.M.ValPath(v))
+}
+
+// ---------- R-EXACTLYONE ----------
+
+type cnt struct{ min, max int } // capped at 2
+
+func capc(x int) int {
+	if x > 2 {
+		return 2
+	}
+	return x
+}
+func (a cnt) add(b cnt) cnt { return cnt{capc(a.min + b.min), capc(a.max + b.max)} }
+func (a cnt) join(b cnt) cnt {
+	r := a
+	if b.min < r.min {
+		r.min = b.min
+	}
+	if b.max > r.max {
+		r.max = b.max
+	}
+	return r
+}
+
+// emissions counts, for one instruction, the terminal messages it emits for the run: a send on the error channel,
+// a call of the server's send function with the work-done message id, or a call of a helper with a known count.
+func (c *Ctx) emissionOf(in ssa.Instruction, ro *atpRoles, workDoneID int64, memo map[*ssa.Function]*cnt, depth int) cnt {
+	switch x := in.(type) {
+	case *ssa.Send:
+		if c.isFieldLoad(x.Chan, ro.serverT, ro.errChan) {
+			return cnt{1, 1}
+		}
+	case *ssa.Select:
+		for _, st := range x.States {
+			if st.Dir == types.SendOnly && c.isFieldLoad(st.Chan, ro.serverT, ro.errChan) {
+				if x.Blocking && len(x.States) == 1 {
+					return cnt{1, 1}
+				}
+				return cnt{0, 1}
+			}
+		}
+	case *ssa.Call:
+		cs := c.M.Callees(&x.Call)
+		if len(cs) != 1 || !c.methodOrClosureOf(cs[0], ro.serverT) {
+			return cnt{}
+		}
+		callee := cs[0]
+		// the send function: first non-receiver parameter is the message id
+		if len(x.Call.Args) >= 2 {
+			if id, ok := core.ConstInt(x.Call.Args[1]); ok && c.encodesMessage(callee) {
+				if id == workDoneID {
+					return cnt{1, 1}
+				}
+				return cnt{}
+			}
+		}
+		if depth < 4 {
+			return c.emissionSummary(callee, ro, workDoneID, memo, depth+1)
+		}
+	}
+	return cnt{}
+}
+
+// encodesMessage: fn (or a goroutine it joins) calls Encode on the server's encoder.
+func (c *Ctx) encodesMessage(fn *ssa.Function) bool {
+	for f := range c.M.Reachable([]*ssa.Function{fn}, nil) {
+		for _, b := range f.Blocks {
+			for _, in := range b.Instrs {
+				if call, ok := in.(*ssa.Call); ok && strings.HasSuffix(core.StaticCalleeName(&call.Call), "cbor/v2.Encoder).Encode") {
+					return true
+				}
+			}
+		}
+	}
+	return false
+}
+
+func (c *Ctx) emissionSummary(fn *ssa.Function, ro *atpRoles, workDoneID int64, memo map[*ssa.Function]*cnt, depth int) cnt {
+	if v, ok := memo[fn]; ok {
+		if v == nil {
+			return cnt{}
+		}
+		return *v
+	}
+	memo[fn] = nil
+	in := c.countFlow(fn, ro, workDoneID, memo, depth)
+	res := cnt{2, 0}
+	any := false
+	for _, r := range core.ReturnsOf(fn) {
+		st := in[r.Block().Index]
+		for _, ins := range r.Block().Instrs {
+			st = st.add(c.emissionOf(ins, ro, workDoneID, memo, depth))
+		}
+		res = res.join(st)
+		any = true
+	}
+	if !any {
+		res = cnt{}
+	}
+	memo[fn] = &res
+	return res
+}
+
+func (c *Ctx) countFlow(fn *ssa.Function, ro *atpRoles, workDoneID int64, memo map[*ssa.Function]*cnt, depth int) []cnt {
+	n := len(fn.Blocks)
+	in := make([]cnt, n)
+	out := make([]cnt, n)
+	vis := make([]bool, n)
+	if n == 0 {
+		return in
+	}
+	vis[0] = true
+	for iter, changed := 0, true; changed && iter < 50; iter++ {
+		changed = false
+		for _, b := range fn.Blocks {
+			var st cnt
+			first := true
+			if b.Index == 0 {
+				st = cnt{}
+				first = false
+			}
+			for _, p := range b.Preds {
+				if !vis[p.Index] {
+					continue
+				}
+				if first {
+					st = out[p.Index]
+					first = false
+				} else {
+					st = st.join(out[p.Index])
+				}
+			}
+			if first {
+				continue
+			}
+			vis[b.Index] = true
+			if st != in[b.Index] {
+				in[b.Index] = st
+				changed = true
+			}
+			o := st
+			for _, ins := range b.Instrs {
+				o = o.add(c.emissionOf(ins, ro, workDoneID, memo, depth))
+			}
+			if o != out[b.Index] {
+				out[b.Index] = o
+				changed = true
+			}
+		}
+	}
+	return in
+}
+
+func (c *Ctx) ruleExactlyOne(rule string) {
+	ro := c.roles()
+	if !ro.ok {
+		return
+	}
+	// the work-done message id constant (exported protocol constant)
+	var workDoneID int64 = -1
+	if obj, ok := c.M.Types["atp"].Scope().Lookup("MessageTypeWorkDone").(*types.Const); ok {
+		if v, exact := constant.Int64Val(obj.Val()); exact {
+			workDoneID = v
+		}
+	}
+	if workDoneID < 0 {
+		c.R.Unresolved(rule, "constant atp.MessageTypeWorkDone")
+		return
+	}
+	callStep := c.fn(rule, "schema.CallableSchema.CallStep")
+	if callStep == nil {
+		return
+	}
+	// the step runner: the recover-scope method of the server from which CallStep is reachable
+	var runner *ssa.Function
+	for _, fn := range c.M.Funcs {
+		if c.isMethodOf(fn, ro.serverT) && isRecoverScope(fn) && c.M.Reachable([]*ssa.Function{fn}, nil)[callStep] {
+			runner = fn
+		}
+	}
+	if runner == nil {
+		c.R.Unresolved(rule, "step runner (recover-protected server method that reaches CallStep)")
+		return
+	}
+	memo := map[*ssa.Function]*cnt{}
+	in := c.countFlow(runner, ro, workDoneID, memo, 0)
+	rets := core.ReturnsOf(runner)
+	sort.Slice(rets, func(i, j int) bool { return rets[i].Pos() < rets[j].Pos() })
+	// deferred recover closure: emits exactly one when recover() != nil and none otherwise
+	var deferred *ssa.Function
+	for _, b := range runner.Blocks {
+		for _, ins := range b.Instrs {
+			if d, ok := ins.(*ssa.Defer); ok {
+				if mc, ok := d.Call.Value.(*ssa.MakeClosure); ok {
+					if f, ok := mc.Fn.(*ssa.Function); ok && callsRecover(f) {
+						deferred = f
+					}
+				}
+			}
+		}
+	}
+	for i, r := range rets {
+		st := in[r.Block().Index]
+		for _, ins := range r.Block().Instrs {
+			st = st.add(c.emissionOf(ins, ro, workDoneID, memo, 0))
+		}
+		k := key(rule, c.M.Key(runner), sprintf("normal exit#%d (%s)", i+1, c.exitDesc(r)))
+		if st.min == 1 && st.max == 1 {
+			c.R.Ok(rule, k, c.M.InstrPos(r), "terminal messages on a path of the step runner", "every path to this exit emits exactly one terminal message (work-done, or a step-fatal error report)")
+		} else {
+			c.R.Bad(rule, k, c.M.InstrPos(r), sprintf("step runner path emits between %d and %d terminal messages", st.min, st.max),
+				"the client's Execute for this run ID either never gets an answer (0) or gets a second one that is reported as a protocol error (2)")
+		}
+	}
+	// panic path: nothing emitted before the call into plugin code; the deferred closure emits one iff recover() != nil
+	for _, b := range runner.Blocks {
+		st := in[b.Index]
+		for _, ins := range b.Instrs {
+			if call, ok := ins.(*ssa.Call); ok {
+				for _, callee := range c.M.Callees(&call.Call) {
+					if callee == callStep {
+						k := key(rule, c.M.Key(runner), "panic path: before the call into step code")
+						if st.max == 0 {
+							c.R.Ok(rule, k, c.M.InstrPos(call), "terminal messages before step code runs", "none: a panic in step code is answered by the recover handler alone")
+						} else {
+							c.R.Bad(rule, k, c.M.InstrPos(call), "a terminal message may be emitted before step code runs", "a panic afterwards yields a second terminal message")
+						}
+					}
+				}
+			}
+			st = st.add(c.emissionOf(ins, ro, workDoneID, memo, 0))
+		}
+	}
+	if deferred == nil {
+		c.R.Unresolved(rule, "deferred recover closure of the step runner")
+		return
+	}
+	din := c.countFlow(deferred, ro, workDoneID, memo, 0)
+	isRecoverNonNil := func(conds []core.Cond) (bool, bool) {
+		for _, cond := range conds {
+			if x, neq, ok := core.NilCmp(cond.V); ok {
+				if call, ok := x.(*ssa.Call); ok {
+					if bi, ok := call.Call.Value.(*ssa.Builtin); ok && bi.Name() == "recover" {
+						return neq == cond.True, true
+					}
+				}
+			}
+		}
+		return false, false
+	}
+	type exitPath struct {
+		st    cnt
+		conds []core.Cond
+		pos   string
+	}
+	var paths []exitPath
+	for _, r := range core.ReturnsOf(deferred) {
+		rb := r.Block()
+		tail := cnt{}
+		for _, ins := range rb.Instrs {
+			tail = tail.add(c.emissionOf(ins, ro, workDoneID, memo, 0))
+		}
+		if len(rb.Preds) <= 1 {
+			paths = append(paths, exitPath{din[rb.Index].add(tail), core.CondsAt(rb), c.M.InstrPos(r)})
+			continue
+		}
+		for _, p := range rb.Preds {
+			st := din[p.Index]
+			for _, ins := range p.Instrs {
+				st = st.add(c.emissionOf(ins, ro, workDoneID, memo, 0))
+			}
+			conds := core.CondsAt(p)
+			if ifi, ok := p.Instrs[len(p.Instrs)-1].(*ssa.If); ok && p.Succs[0] != p.Succs[1] {
+				conds = append(conds, core.Cond{V: ifi.Cond, True: p.Succs[0] == rb})
+			}
+			paths = append(paths, exitPath{st.add(tail), conds, c.M.InstrPos(r)})
+		}
+	}
+	seenBranch := map[string]bool{}
+	for _, ep := range paths {
+		recovered, known := isRecoverNonNil(ep.conds)
+		want := 0
+		name := "no panic"
+		if !known {
+			name = "undetermined"
+			want = -1
+		} else if recovered {
+			want = 1
+			name = "recovered panic"
+		}
+		k := key(rule, c.M.Key(deferred), "recover handler: "+name)
+		if seenBranch[k] && ep.st.min == want && ep.st.max == want {
+			continue
+		}
+		seenBranch[k] = true
+		if ep.st.min == want && ep.st.max == want {
+			c.R.Ok(rule, k, ep.pos, "terminal messages emitted by the recover handler", sprintf("exactly %d on the %s branch", want, name))
+		} else {
+			c.R.Bad(rule, k, ep.pos, sprintf("recover handler emits %d..%d terminal messages on the %s branch", ep.st.min, ep.st.max, name), "a panicking step must be answered by exactly one step-fatal error, a normally returning one by none from here")
+		}
+	}
+	c.R.Floor(rule, 4)
+}
+
+// ---------- R-DELIVER ----------
+
+// deliveryFns: client functions that (transitively) store an execution entry's result.
+func (c *Ctx) deliveryFns(ro *atpRoles) map[*ssa.Function]bool {
+	out := map[*ssa.Function]bool{}
+	direct := map[*ssa.Function]bool{}
+	for _, fn := range c.M.Funcs {
+		if !c.methodOrClosureOf(fn, ro.clientT) {
+			continue
+		}
+		for _, b := range fn.Blocks {
+			for _, in := range b.Instrs {
+				if st, ok := in.(*ssa.Store); ok {
+					if fa, ok := st.Addr.(*ssa.FieldAddr); ok {
+						if sn := structOf(fa.X.Type()); sn != nil && sn.Obj().Pkg() == ro.clientT.Obj().Pkg() {
+							if est := fieldsOf(sn); est != nil {
+								for i := 0; i < est.NumFields(); i++ {
+									if isNamed(est.Field(i).Type(), "sync", "Cond") {
+										if _, isAlloc := fa.X.(*ssa.Alloc); !isAlloc {
+											direct[fn] = true
+										}
+									}
+								}
+							}
+						}
+					}
+				}
+			}
+		}
+	}
+	for _, fn := range c.M.Funcs {
+		if !c.methodOrClosureOf(fn, ro.clientT) {
+			continue
+		}
+		for f := range c.reachSync(fn) {
+			if direct[f] {
+				out[fn] = true
+			}
+		}
+	}
+	return out
+}
+
+func (c *Ctx) ruleDeliver(rule string) {
+	ro := c.roles()
+	if !ro.ok {
+		return
+	}
+	deliver := c.deliveryFns(ro)
+	for _, fn := range c.M.Funcs {
+		if !c.methodOrClosureOf(fn, ro.clientT) {
+			continue
+		}
+		for _, b := range fn.Blocks {
+			for _, in := range b.Instrs {
+				call, ok := in.(*ssa.Call)
+				if !ok {
+					continue
+				}
+				n := core.StaticCalleeName(&call.Call)
+				isDecode := strings.HasSuffix(n, "cbor/v2.Decoder).Decode") || strings.HasSuffix(n, "cbor/v2.Unmarshal")
+				if !isDecode {
+					continue
+				}
+				// decoded target type
+				target := call.Call.Args[len(call.Call.Args)-1]
+				tdesc := "value"
+				if mi, ok := target.(*ssa.MakeInterface); ok {
+					tdesc = strings.TrimPrefix(typeStr(mi.X.Type()), "*")
+				}
+				k := key(rule, c.M.Key(fn), "decode of "+tdesc)
+				pos := c.M.InstrPos(call)
+				if strings.HasSuffix(tdesc, "SignalMessage") {
+					c.R.Except(rule, k, pos, "decode error of a signal payload", "E-SIGNAL: a lost signal payload loses no step result; only logged by design")
+					continue
+				}
+				// find the error branch
+				var errBlock *ssa.BasicBlock
+				if refs := call.Referrers(); refs != nil {
+					for _, r := range *refs {
+						if bin, ok := r.(*ssa.BinOp); ok {
+							if _, neq, isNil := core.NilCmp(bin); isNil {
+								for _, r2 := range *bin.Referrers() {
+									if ifi, ok := r2.(*ssa.If); ok {
+										if neq {
+											errBlock = ifi.Block().Succs[0]
+										} else {
+											errBlock = ifi.Block().Succs[1]
+										}
+									}
+								}
+							}
+						}
+					}
+				}
+				if errBlock == nil {
+					c.R.Bad(rule, k, pos, "decode error is never tested", "the partially decoded value is used as if it had arrived intact")
+					continue
+				}
+				if c.allPathsDeliver(fn, errBlock, deliver) {
+					c.R.Ok(rule, k, pos, "decode error handling", "on the error branch every path reaches the affected waiter(s) (result store + wake-up) or returns the error to the caller")
+				} else {
+					c.R.Bad(rule, k, pos, "decode error that reaches nobody",
+						"some path from the error branch to the end of the function neither delivers an error result to a waiting Execute nor returns it: the run's caller stays blocked")
+				}
+			}
+		}
+	}
+	// every message read by the read loop must be handed to a handler
+	fn := ro.readLoop
+	for _, b := range fn.Blocks {
+		for _, in := range b.Instrs {
+			call, ok := in.(*ssa.Call)
+			if !ok || !strings.HasSuffix(core.StaticCalleeName(&call.Call), "cbor/v2.Decoder).Decode") {
+				continue
+			}
+			// message variable: the alloc passed to Decode
+			var msg ssa.Value
+			if mi, ok := call.Call.Args[len(call.Call.Args)-1].(*ssa.MakeInterface); ok {
+				msg = mi.X
+			}
+			if msg == nil {
+				continue
+			}
+			// success successor
+			var okBlock *ssa.BasicBlock
+			if refs := call.Referrers(); refs != nil {
+				for _, r := range *refs {
+					if bin, ok := r.(*ssa.BinOp); ok {
+						if _, neq, isNil := core.NilCmp(bin); isNil {
+							for _, r2 := range *bin.Referrers() {
+								if ifi, ok := r2.(*ssa.If); ok {
+									if neq {
+										okBlock = ifi.Block().Succs[1]
+									} else {
+										okBlock = ifi.Block().Succs[0]
+									}
+								}
+							}
+						}
+					}
+				}
+			}
+			if okBlock == nil {
+				continue
+			}
+			k := key(rule, c.M.Key(fn), "every decoded runtime message is handed to a handler")
+			missing := c.pathWithoutHandler(fn, okBlock, call.Block(), msg, ro)
+			if missing == "" {
+				c.R.Ok(rule, k, c.M.InstrPos(call), "dispatch of decoded messages", "every path from a successful decode back to the next read passes a client method that receives the message")
+			} else {
+				c.R.Bad(rule, k, c.M.InstrPos(call), "a decoded message can be dropped without telling anyone",
+					"the path through "+missing+" reaches the next read without any client method receiving the message (only logging): if its ID byte was corrupted, the run it belonged to never completes")
+			}
+		}
+	}
+	c.R.Floor(rule, 4)
+}
+
+// allPathsDeliver: every path from start to a Return passes a call to a delivery function, or the Return hands a
+// non-nil error / an error result back to the caller.
+func (c *Ctx) allPathsDeliver(fn *ssa.Function, start *ssa.BasicBlock, deliver map[*ssa.Function]bool) bool {
+	seen := map[*ssa.BasicBlock]bool{}
+	var walk func(b *ssa.BasicBlock) bool
+	walk = func(b *ssa.BasicBlock) bool {
+		if seen[b] {
+			return true
+		}
+		seen[b] = true
+		for _, in := range b.Instrs {
+			switch x := in.(type) {
+			case *ssa.Call:
+				for _, callee := range c.M.Callees(&x.Call) {
+					if deliver[callee] {
+						return true
+					}
+				}
+			case *ssa.Return:
+				if fn.Signature.Results().Len() == 0 {
+					return false
+				}
+				ei := core.ErrorResultIndex(fn.Signature)
+				if ei >= 0 {
+					return c.M.ProvablyNonNilError(core.RetVal(x, ei), b)
+				}
+				// a result struct built by an error constructor
+				for i := range x.Results {
+					if call, ok := core.RetVal(x, i).(*ssa.Call); ok && strings.Contains(core.StaticCalleeName(&call.Call), "Error") {
+						return true
+					}
+				}
+				return false
+			case *ssa.Panic:
+				return true
+			}
+		}
+		for _, s := range b.Succs {
+			if !walk(s) {
+				return false
+			}
+		}
+		return len(b.Succs) > 0
+	}
+	return walk(start)
+}
+
+// pathWithoutHandler: returns a description of a path from start back to `latch` (the block that reads the next
+// message) or to a return, on which no client method receives the message; "" if none.
+func (c *Ctx) pathWithoutHandler(fn *ssa.Function, start, latch *ssa.BasicBlock, msg ssa.Value, ro *atpRoles) string {
+	passesMsg := func(call *ssa.Call) bool {
+		if len(c.M.Callees(&call.Call)) == 0 {
+			return false
+		}
+		for _, a := range call.Call.Args {
+			if ld, ok := a.(*ssa.UnOp); ok && ld.X == msg {
+				return true
+			}
+			if a == msg {
+				return true
+			}
+		}
+		return false
+	}
+	seen := map[*ssa.BasicBlock]bool{}
+	var walk func(b *ssa.BasicBlock, via string) string
+	walk = func(b *ssa.BasicBlock, via string) string {
+		if b == latch {
+			return via
+		}
+		if seen[b] {
+			return ""
+		}
+		seen[b] = true
+		for _, in := range b.Instrs {
+			if call, ok := in.(*ssa.Call); ok && passesMsg(call) {
+				return ""
+			}
+			if _, ok := in.(*ssa.Return); ok {
+				return ""
+			}
+		}
+		for _, s := range b.Succs {
+			v := via
+			if b.Comment != "" && v == "" && strings.Contains(b.Comment, "switch") {
+				v = "the default case of the message-type switch"
+			}
+			if r := walk(s, v); r != "" {
+				return r
+			}
+		}
+		return ""
+	}
+	r := walk(start, "")
+	if r == "" {
+		// distinguish "no path" from "path with empty description"
+		seen = map[*ssa.BasicBlock]bool{}
+		var reach func(b *ssa.BasicBlock) bool
+		reach = func(b *ssa.BasicBlock) bool {
+			if b == latch {
+				return true
+			}
+			if seen[b] {
+				return false
+			}
+			seen[b] = true
+			for _, in := range b.Instrs {
+				if call, ok := in.(*ssa.Call); ok && passesMsg(call) {
+					return false
+				}
+				if _, ok := in.(*ssa.Return); ok {
+					return false
+				}
+			}
+			for _, s := range b.Succs {
+				if reach(s) {
+					return true
+				}
+			}
+			return false
+		}
+		if reach(start) {
+			return "a branch of the message dispatch"
+		}
+	}
+	return r
+}
+
+// ---------- R-BLOCKLOCK ----------
+
+func (c *Ctx) ruleBlockLock(rule string) {
+	ro := c.roles()
+	if !ro.ok {
+		return
+	}
+	mutex := ro.mutexOf[ro.clientT]
+	for _, fn := range c.M.Funcs {
+		if !c.methodOrClosureOf(fn, ro.clientT) {
+			continue
+		}
+		for _, b := range fn.Blocks {
+			for _, in := range b.Instrs {
+				what := ""
+				switch x := in.(type) {
+				case *ssa.Send:
+					what = "channel send"
+				case *ssa.Select:
+					if x.Blocking {
+						what = "blocking select"
+					}
+				case *ssa.UnOp:
+					if x.Op.String() == "<-" {
+						what = "channel receive"
+					}
+				case *ssa.Call:
+					n := core.StaticCalleeName(&x.Call)
+					switch {
+					case strings.HasSuffix(n, "cbor/v2.Encoder).Encode"):
+						what = "encode"
+					case strings.HasSuffix(n, "cbor/v2.Decoder).Decode"):
+						what = "decode (blocking read)"
+					case n == "(*sync.WaitGroup).Wait":
+						what = "WaitGroup.Wait"
+					case n == "time.Sleep":
+						what = "sleep"
+					}
+				}
+				if what == "" {
+					continue
+				}
+				held := false
+				for _, l := range c.lockedAt(fn, in) {
+					if strings.HasSuffix(l, "."+mutex) {
+						held = true
+					}
+				}
+				if !held {
+					continue
+				}
+				k := key(rule, c.M.Key(fn), what+" under the client mutex")
+				pos := c.M.InstrPos(in)
+				switch {
+				case what == "encode":
+					c.R.Ok(rule, k, pos, "blocking operation under the client mutex", "the encoder write is what the mutex serialises")
+				case what == "channel send" && c.sendOnTableChannel(in.(*ssa.Send), ro):
+					c.R.Except(rule, k, pos, "blocking operation under the client mutex",
+						"E-SIGNALSEND: the send to the caller's signal channel happens under the mutex by design (it excludes the close in the same discipline, see R-CHAN); a caller that stops receiving signals stalls the client - outside the healthy-peer premise")
+				default:
+					c.R.Bad(rule, k, pos, what+" while the client mutex is held", "every other Execute, result delivery and Close needs this mutex: a peer or caller that does not respond blocks them all")
+				}
+			}
+		}
+	}
+}
+
+func (c *Ctx) sendOnTableChannel(s *ssa.Send, ro *atpRoles) bool {
+	var lk *ssa.Lookup
+	if e, ok := s.Chan.(*ssa.Extract); ok {
+		lk, _ = e.Tuple.(*ssa.Lookup)
+	} else if l, ok := s.Chan.(*ssa.Lookup); ok {
+		lk = l
+	}
+	return lk != nil && strings.HasSuffix(c.M.ValPath(lk.X), "."+ro.sigTable)
 }
